@@ -196,7 +196,15 @@ func TestBinaryRoundTrip(t *testing.T) {
 			if d := serixgen.Equal(c.Root, v, dec.Value); d != "" {
 				violation(rt, check, c, v, ex, "decoded value differs: %s", d)
 			}
-			// validated bytes also decode without validation and vice versa is not claimed
+			// bytes encoded without validation decode with validation whenever the value satisfies every documented rule
+			// (the reference encoder decides that); the converse direction is checked below
+			if !validate && serixgen.RefEncode(c.Root, v, true).Reject == "" {
+				decV := c.Decode(enc.Bytes, true)
+				if decV.Panic != nil || decV.Err != nil || decV.N != len(enc.Bytes) || serixgen.Equal(c.Root, v, decV.Value) != "" {
+					violation(rt, check, c, v, ex, "bytes of a rule-abiding value encoded without validation do not round-trip through Decode with validation: panic=%v err=%v n=%d", decV.Panic, decV.Err, decV.N)
+				}
+				labels = append(labels, "cross_mode_decode")
+			}
 			if validate {
 				dec2 := c.Decode(enc.Bytes, false)
 				if dec2.Panic != nil || dec2.Err != nil || dec2.N != len(enc.Bytes) || serixgen.Equal(c.Root, v, dec2.Value) != "" {
